@@ -1285,3 +1285,23 @@ Lemma accept_strict c pre t w b tj bj D :
 Proof.
   intros Hwf Hr Es Hw. destruct (model_accept_ok c t _ _ w b (record_at c pre t _ w Hwf)) as [H _]. eauto.
 Qed.
+
+(* ------------------------------------------------------------------ two-phase garbage collection *)
+
+Lemma gc_sweep_recheck_invisible {K A} now now' (marked : K -> bool) (c : cache K A) k :
+  now <= now' -> cget now' k (gc_sweep true now marked c) = cget now' k c.
+Proof.
+  intro H. unfold cget, gc_sweep. destruct (marked k); auto.
+  destruct (c k) as [[v e]|]; auto. destruct (live now e) eqn:L; auto.
+  destruct (live now' e) eqn:L2; auto. rewrite (live_mono _ _ _ H L2) in L. discriminate.
+Qed.
+
+Lemma gc_sweep_norecheck_refuted :
+  exists (c0 : cache N entry) (W now : Z) (k : N) (v : entry),
+    let marked := gc_mark now c0 in          (* phase 1 sees the old, expired item *)
+    let c1 := cset N.eqb W now k v c0 in     (* a fresh item is set in between *)
+    cget now k c1 = Some v /\ cget now k (gc_sweep false now marked c1) = None.
+Proof.
+  exists (cset N.eqb 5 10 1%N (mkE 10 true 0 0) cempty), 5, 100, 1%N, (mkE 20 true 0 0).
+  vm_compute. split; reflexivity.
+Qed.
